@@ -7,8 +7,14 @@ th = {}
 if thorough_log and os.path.exists(thorough_log):
     for m in re.finditer(r"\[(C\d+) thorough seed=\d+\] verdict=(\w+) evaluations=(\d+) distinct_nontrivial=(\d+) shards=(\d+) wall=([\d.]+)s", open(thorough_log).read()):
         th[m.group(1)] = m.groups()[1:]
-rows = []
+# thorough figures: from evidence/<id>.json when that is a thorough-tier run (preferred), else from the log given on the command line
 for f in sorted(glob.glob(f"{V}/evidence/C*.json")):
+    e = json.load(open(f))
+    if e.get("tier") == "thorough":
+        c = e["coverage"]; th[e["property_id"]] = (c.get("verdict", ""), str(c["evaluations"]), str(c["distinct_nontrivial"]), str(c.get("shards", 0)), str(e["wall_s"]))
+rows = []
+qdir = f"{V}/evidence/_quick" if glob.glob(f"{V}/evidence/_quick/C*.json") else f"{V}/evidence"
+for f in sorted(glob.glob(f"{qdir}/C*.json")):
     e = json.load(open(f)); c = e["coverage"]; pid = e["property_id"]
     top = sorted(c.get("monitor_counters", {}).items(), key=lambda kv: -kv[1])[:4]
     t = th.get(pid)
